@@ -43,7 +43,7 @@ Definition s_qqq : str := [63; 63; 63].
 Definition s_active : str := [97; 99; 116; 105; 118; 101].
 Definition s_passive : str := [112; 97; 115; 115; 105; 118; 101].
 Definition s_so : str := [115; 111].
-Definition s_ice_sdp_nl : str := [32; 73; 67; 69; 47; 83; 68; 80; 10].                       (* " ICE/SDP\n" *)
+Definition s_ice_sdp : str := [32; 73; 67; 69; 47; 83; 68; 80].                              (* " ICE/SDP" *)
 Definition s_c_in_ip4 : str := [99; 61; 73; 78; 32; 73; 80; 52; 32].                         (* "c=IN IP4 " *)
 Definition s_rtcp : str := [97; 61; 114; 116; 99; 112; 58].                                  (* "a=rtcp:" *)
 Definition SP : Z := 32.
@@ -265,19 +265,26 @@ Fixpoint default_rtcp (cs : list cand) (f : str) : option cand :=
   | c :: tl => if cand_is_v4 c && str_eq (c_found c) f then Some c else default_rtcp tl f
   end.
 
-Definition gen_stream (st : stream) : str :=
-  let rtp_c := match s_comps st with c1 :: _ => default_rtp c1 None | [] => None end in
-  let rtcp_c := match s_comps st, rtp_c with
-                | _ :: c2 :: _, Some r => default_rtcp c2 (c_found r)
-                | _, _ => None end in
-  let rtp := match rtp_c with Some c => c_addr c | None => A4 0 0 end in
-  let rtcp := match rtcp_c with Some c => c_addr c | None => A4 0 0 end in
-  s_m ++ (match s_name st with Some n => n | None => [45] end) ++ SP :: print_dec (addr_port rtp) ++ s_ice_sdp_nl
-  ++ s_c_in_ip4 ++ to_string rtp ++ [NL]
-  ++ (if negb (addr_port rtcp =? 0) then s_rtcp ++ print_dec (addr_port rtcp) ++ [NL] else [])
-  ++ s_ufrag ++ s_lufrag st ++ [NL]
-  ++ s_pwd ++ s_lpwd st ++ [NL]
-  ++ flat_map (fun c => gen_candidate c ++ [NL]) (concat (s_comps st)).
+(* the addresses written on the "m=" / "c=" / "a=rtcp:" lines: default candidates of components 1 and 2,
+   0.0.0.0:0 when there is none *)
+Definition stream_rtp_cand (st : stream) : option cand :=
+  match s_comps st with c1 :: _ => default_rtp c1 None | [] => None end.
+Definition stream_rtp (st : stream) : addr :=
+  match stream_rtp_cand st with Some c => c_addr c | None => A4 0 0 end.
+Definition stream_rtcp (st : stream) : addr :=
+  match s_comps st, stream_rtp_cand st with
+  | _ :: c2 :: _, Some r => match default_rtcp c2 (c_found r) with Some c => c_addr c | None => A4 0 0 end
+  | _, _ => A4 0 0
+  end.
+(* _generate_stream_sdp with include_non_ice = TRUE: every printf writes one line ending in "\n" *)
+Definition head_lines (st : stream) : list str :=
+  [s_m ++ (match s_name st with Some n => n | None => [45] end) ++ SP :: print_dec (addr_port (stream_rtp st)) ++ s_ice_sdp;
+   s_c_in_ip4 ++ to_string (stream_rtp st)]
+  ++ (if negb (addr_port (stream_rtcp st) =? 0) then [s_rtcp ++ print_dec (addr_port (stream_rtcp st))] else []).
+Definition stream_lines (st : stream) : list str :=
+  head_lines st ++ [s_ufrag ++ s_lufrag st; s_pwd ++ s_lpwd st] ++ map gen_candidate (concat (s_comps st)).
+Definition unlines (ls : list str) : str := flat_map (fun l => l ++ [NL]) ls.
+Definition gen_stream (st : stream) : str := unlines (stream_lines st).
 
 (* nice_agent_generate_local_sdp *)
 Definition gen_sdp (sts : list stream) : str := flat_map gen_stream sts.
